@@ -337,7 +337,21 @@ class C07(SessionProp):
     monitor = staticmethod(M.mon_c07)
     table = T_SUB
     profiles = (1, 3)
-    tail = (("settle", 0), ("idle", 3000.0))
+    naddr = 2
+    tail = (("settle", 1), ("settle", 0), ("idle", 3000.0))
+
+    def strategy(self, tier):
+        tb = self.table
+        tail = list(self.tail)
+
+        def mk(cfg, pre, pre2, two, ws):
+            ops = G.preamble(cfg, pre)
+            if two:
+                ops += [tuple([o[0], 1] + list(o[2:])) for o in G.preamble(cfg, pre2)]
+                return (cfg, ops + tb.decode(ws, 2) + tail)
+            return (cfg, ops + tb.decode(ws, 1) + tail[1:])
+        return st.builds(mk, G.cfg_strategy(self.profiles), G.pre_strategy(), G.pre_strategy(), st.sampled_from([False, False, True]),
+                         G.words(self.max_words if tier == "quick" else self.max_words * 2, naddr=2))
     rule = ("Histories over subscribe (3 argument shapes, 1..5 topics, QoS 0..2, non-ASCII) and unsubscribe (2 "
             "shapes), SUBACK/UNSUBACK oldest/newest/k-th/duplicate/foreign-id with granted lists of the request's "
             "or of any length 0..8 over {0,1,2,0x80}, window changes 1..16 with requests pending, retry expiries, "
@@ -506,7 +520,7 @@ def o_pingrun(ad, a, b, c):
 
 
 T_KA = G.Table([
-    (10, o_ping_in_time), (4, o_ping_late), (6, G.o_pingresp), (6, G.o_advance), (4, G.o_fire), (3, o_pingrun),
+    (12, o_ping_in_time), (4, o_ping_late), (5, G.o_pingresp), (5, G.o_advance), (4, G.o_fire), (9, o_pingrun),
     (3, G.o_publish), (2, G.o_ack_good), (2, G.o_lose), (3, G.o_reconnect), (1, G.o_disconnect), (1, G.o_subscribe),
     (2, G.o_arm_disconnect), (1, G.o_arm),
 ])
@@ -633,11 +647,16 @@ class C11(PrefixFaultProp):
         return res
 
 
+def o_setid_any(ad, a, b, c):
+    """place the packet-id counter shortly before the wrap (identifiers then stop following request order)"""
+    return [("setid", 65528 + (a % 8))]
+
+
 T_PERS = G.Table([
     (12, G.o_publish_q12), (3, G.o_publish_q0), (5, G.o_pubrec), (3, G.o_puback), (3, G.o_pubcomp), (3, G.o_ack_good),
     (3, G.o_fire), (2, G.o_window), (1, G.o_advance_small), (3, G.o_lose_reconnect_persist), (1, G.o_lose_reconnect_clean),
     (2, G.o_reconnect_noack), (2, G.o_lose), (2, G.o_connack_ok), (1, G.o_build), (1, G.o_subscribe),
-    (3, G.o_resume_with_publish),
+    (3, G.o_resume_with_publish), (2, o_setid_any),
 ])
 POST_PERS = [
     [("build", 0), ("handlers", 0, 7), ("connect", 0, 0, 0, 0), ("rx", 0, "CONNACK", 0, 1), ("publish", 0, 1), ("settle", 0), ("idle", 300.0)],
@@ -1722,8 +1741,8 @@ class C16(SessionProp):
                         res.add("exhaustive:short_frames", case, self.check_case(case))
                         n += 1
                         if ln >= 1 and ln <= 2:
-                            # the length byte itself from the alphabet
-                            for lb in self.ALPHA:
+                            # the length byte itself from the alphabet (too short, too long, continuation bit)
+                            for lb in (self.ALPHA if maxlen >= 4 else (0x00, 0x01, 0x7F, 0x80)):
                                 if lb != ln:
                                     fr2 = bytes([b0, lb]) + bytes(body)
                                     case = self.frame_case(cfg, si, fr2)
@@ -1766,7 +1785,7 @@ T_CLOSE = G.Table([
 ])
 ALL_TABLES = [T_MIX, T_PUB, T_PUBWIN, T_Q2, T_SUB, T_RETRY, T_KA, T_PERS, T_CLEAN, T_HS, T_INB, T_CLOSE]
 C13.tables = ALL_TABLES
-C18.tables = [T_CLOSE, T_CLOSE, T_CLOSE] + ALL_TABLES
+C18.tables = [T_CLOSE] * 8 + ALL_TABLES
 
 
 class C02live(SessionProp):
